@@ -256,7 +256,7 @@ pub fn copy_node(src: &Path, dest: &Path) -> Result<()> {
     let rmode = RawMode::from(meta.permissions().mode());
     let mode = Mode::from_raw_mode(rmode);
     let ftype = FileType::from_raw_mode(rmode);
-    let dev = meta.dev();
+    let dev = meta.rdev();
 
     mknodat(CWD, dest, ftype, mode, dev)?;
     Ok(())
